@@ -2,8 +2,9 @@
   C14 — pool contents always equal the loaded values minus the deleted ones, in pool-key order.
   Property theorems only (model: Zed/Model/Lake*.lean; lemmas: Zed/Proofs/Lake*.lean).
 -/
-import Zed.Proofs.LakeSnap
-import Zed.Proofs.LakeScan
+import Zed.Proofs.LakeSorted
+import Zed.Proofs.LakeCompact
+import Zed.Proofs.LakeFresh
 namespace Zed.Props.C14
 open Zed.Lake
 
@@ -44,18 +45,17 @@ theorem scan_contents (cfg : Cfg K V) (s : State K V) (c : Nat) (snap : Snap K) 
   exact scanObjs_perm cfg s.files snap.objs r h
 
 omit [DecidableEq V] in
-/-- **delete by id** (object-set refinement), partial: under the guard `ids.Nodup` a successful
-    `delete(ids)` yields a readable tip whose objects are exactly the previous ones minus `ids`.
-
-    Full statement (`delete_exact`, without the guard) is FALSE of the current code, see
-    `not_delete_exact`: `Branch.Delete` emits one `Delete` action per listed id, so a repeated
-    id makes the new commit unreplayable. -/
-theorem delete_exact_partial (s s' : State K V) (b : Nat) (ids : List Nat) (hn : ids.Nodup)
+/-- **delete by id** (object-set refinement).  A successful `delete(ids)` — ids in any order,
+    with or without repetitions (`Branch.Delete` de-duplicates the list since fix f09056a37;
+    before it a repeated id made the branch unreadable) — yields a readable tip whose objects
+    are exactly the previous ones minus `ids`; vectors are untouched. -/
+theorem delete_exact (s s' : State K V) (b : Nat) (ids : List Nat)
     (h : delete s b ids = .ok s') :
     ∃ t snap snap', s.tip b = some t ∧ snapAt s.commits t = .ok snap ∧
       snapAt s'.commits (s.commits.length + 1) = .ok snap' ∧ snap'.vecs = snap.vecs ∧
       ∀ id, snap'.hasObj id = (snap.hasObj id && !ids.contains id) := by
   unfold delete at h
+  simp only [] at h
   split at h
   · cases h
   · rename_i t ht
@@ -65,25 +65,278 @@ theorem delete_exact_partial (s s' : State K V) (b : Nat) (ids : List Nat) (hn :
       split at h
       · rename_i hall
         cases h
-        obtain ⟨snap', h1, h2, h3⟩ := play_dels snap ids hn (by
+        obtain ⟨snap', h1, h2, h3⟩ := play_dels snap (uniqueIds ids) (nodup_uniqueIds ids) (by
           intro id hid
           exact (List.all_eq_true.mp hall) id hid)
-        exact ⟨t, snap, snap', ht, hs, by rw [commit_snap s b t _ snap hs, h1], h2, h3⟩
+        refine ⟨t, snap, snap', ht, hs, by rw [commit_snap s b t _ snap hs, h1], h2, ?_⟩
+        intro id
+        rw [h3 id, contains_uniqueIds]
       · cases h
 
-/-! negation witness: one object, `delete [1, 1]` -/
+omit [DecidableEq V] in
+private theorem flatMap_congr' {α β : Type} (l : List α) (f g : α → List β) (h : ∀ a ∈ l, f a = g a) :
+    l.flatMap f = l.flatMap g := by
+  induction l with
+  | nil => rfl
+  | cons a as ih =>
+    simp only [List.flatMap_cons]
+    rw [h a (by simp), ih (fun x hx => h x (by simp [hx]))]
+
+omit [DecidableEq V] in
+private theorem hasObj_false_of_lt (snap : Snap K) (n id : Nat) (h : ∀ o ∈ snap.objs, o.id < n) (hid : n ≤ id) :
+    snap.hasObj id = false := by
+  cases hc : snap.hasObj id with
+  | false => rfl
+  | true =>
+    obtain ⟨o, ho, hoid⟩ := List.any_eq_true.mp hc
+    have := h o ho
+    have : o.id = id := by simpa using hoid
+    omega
+
+/-- **refinement, load** (`abs (step s (load vals)) = abs s ⊎ vals`).  A successful load makes
+    the branch tip readable and its contents — the values held by the objects of its snapshot —
+    the previous contents plus exactly the loaded values, for every threshold (any partition of
+    the input into buffers), every comparator and every earlier history.  Freshness of object
+    ids (`KSUID` uniqueness) appears as the two hypotheses on `nextObj`. -/
+theorem load_refines (cfg : Cfg K V) (s s' : State K V) (b : Nat) (vals : List V) (parts : List (List V))
+    (h : load cfg s b vals parts = .ok s')
+    (hfiles : ∀ f ∈ s.files, f.1 < s.nextObj) :
+    ∃ t, s.tip b = some t ∧ ∀ snap, snapAt s.commits t = .ok snap → (∀ o ∈ snap.objs, o.id < s.nextObj) →
+      ∃ snap', snapAt s'.commits (s.commits.length + 1) = .ok snap' ∧ snap'.vecs = snap.vecs ∧
+        (snap'.objs.flatMap (pay s'.files)).Perm (snap.objs.flatMap (pay s.files) ++ vals) := by
+  unfold load at h
+  split at h
+  · cases h
+  · rename_i t ht
+    refine ⟨t, ht, ?_⟩
+    intro snap hs hfresh
+    split at h
+    · cases h
+    · split at h
+      · cases h
+      · rename_i hperm
+        simp only [] at h
+        have w := writeObjs_spec cfg s parts hfiles
+        cases hw : writeObjs cfg s parts with
+        | mk s1 objs =>
+          rw [hw] at h w
+          simp only [] at h w
+          cases h
+          have hc1 : s1.commits = s.commits := by
+            have := writeObjs_commits cfg s parts; rw [hw] at this; exact this
+          have hs1 : snapAt s1.commits t = .ok snap := by rw [hc1]; exact hs
+          have hplay := play_adds snap objs w.nodup (by
+            intro o ho
+            exact hasObj_false_of_lt snap s.nextObj o.id hfresh (w.ids o ho).1)
+          have hlen : s.commits.length = s1.commits.length := by rw [hc1]
+          refine ⟨{ snap with objs := snap.objs ++ objs }, by rw [hlen, commit_snap s1 b t _ snap hs1, hplay], rfl, ?_⟩
+          simp only [commit_files, List.flatMap_append]
+          obtain ⟨e, he, hee⟩ := w.ext
+          have hold : snap.objs.flatMap (pay s1.files) = snap.objs.flatMap (pay s.files) := by
+            apply flatMap_congr'
+            intro o ho
+            unfold pay
+            rw [he, fileOf_append_none]
+            intro f hf
+            have := (hee f hf).1
+            have := hfresh o ho
+            omega
+          rw [hold, w.payload]
+          apply List.Perm.append_left
+          have hp : parts.Perm ((chunk cfg vals).map (sortVals cfg)) := by
+            have : parts.isPerm ((chunk cfg vals).map (sortVals cfg)) = true := by simpa using hperm
+            exact List.isPerm_iff.mp this
+          exact (hp.flatten).trans ((flatten_map_sort_perm cfg _).trans (by rw [chunk_flatten]))
+
+omit [DecidableEq V] in
+/-- **refinement, delete by id** (value level): the previous contents are the new contents plus
+    exactly the values of the deleted objects; nothing else changes. -/
+theorem delete_refines (s s' : State K V) (b : Nat) (ids : List Nat)
+    (h : delete s b ids = .ok s') :
+    ∃ t snap snap', s.tip b = some t ∧ snapAt s.commits t = .ok snap ∧
+      snapAt s'.commits (s.commits.length + 1) = .ok snap' ∧ s'.files = s.files ∧
+      (snap.objs.flatMap (pay s.files)).Perm
+        (snap'.objs.flatMap (pay s'.files) ++ (snap.objs.filter (fun o => ids.contains o.id)).flatMap (pay s.files)) := by
+  obtain ⟨t, snap, snap', ht, hs, hs', _, _⟩ := delete_exact s s' b ids h
+  have hf : s'.files = s.files := by
+    unfold delete at h
+    simp only [] at h
+    rw [ht] at h
+    simp only [hs] at h
+    split at h
+    · cases h; rfl
+    · cases h
+  have hplay : play snap ((uniqueIds ids).map .del) = .ok snap' := by
+    unfold delete at h
+    simp only [] at h
+    rw [ht] at h
+    simp only [hs] at h
+    split at h
+    · cases h
+      rw [commit_snap s b t _ snap hs] at hs'
+      exact hs'
+    · cases h
+  obtain ⟨hobjs, _⟩ := play_dels_objs snap snap' (uniqueIds ids) hplay
+  have hobjs : snap'.objs = snap.objs.filter (fun o => !ids.contains o.id) := by
+    rw [hobjs]; congr 1; funext o; rw [contains_uniqueIds]
+  refine ⟨t, snap, snap', ht, hs, hs', hf, ?_⟩
+  rw [hf, hobjs, ← List.flatMap_append]
+  exact ((List.filter_append_perm (fun o => !ids.contains o.id) snap.objs).symm.trans
+    (by
+      have : (snap.objs.filter fun o => !!ids.contains o.id) = snap.objs.filter (fun o => ids.contains o.id) := by
+        congr 1; funext o; cases ids.contains o.id <;> rfl
+      rw [this])).flatMap_right _
+
+/-- **refinement, compaction** (`abs (step s (compact ids)) = abs s`).  A successful compaction
+    — any set of source objects, with or without vectors, any cut of the merged output into new
+    objects that the model's validation accepts — leaves the branch readable with exactly the
+    same contents.  Hypotheses: fresh ids as in `load_refines`, and distinct object ids in the
+    tip snapshot (the discipline `Snapshot.AddDataObject` enforces). -/
+theorem compact_refines (cfg : Cfg K V) (s s' : State K V) (b : Nat) (ids : List Nat) (vec : Bool)
+    (parts : List (List V)) (h : compact cfg s b ids vec parts = .ok s')
+    (hfiles : ∀ f ∈ s.files, f.1 < s.nextObj) :
+    ∃ t, s.tip b = some t ∧ ∀ snap, snapAt s.commits t = .ok snap →
+      (∀ o ∈ snap.objs, o.id < s.nextObj) → (∀ v ∈ snap.vecs, v < s.nextObj) →
+      (snap.objs.map (·.id)).Nodup →
+      ∃ snap', snapAt s'.commits (s.commits.length + 1) = .ok snap' ∧
+        (snap'.objs.flatMap (pay s'.files)).Perm (snap.objs.flatMap (pay s.files)) :=
+  Zed.Lake.compact_refines cfg s s' b ids vec parts h hfiles
+
+/-- **history invariant.**  For every history — of any length — of loads, deletes,
+    compactions, vector adds/deletes, vacuums and branch creations from a state satisfying the
+    freshness invariant `Good` (in particular from the empty pool, `Good.init`), the invariant
+    holds again; so the hypotheses of `load_refines` / `compact_refines` hold at every step of
+    every such history (`refinement_load`, `refinement_compact` below). -/
+theorem history_invariant (cfg : Cfg K V) (s : State K V) (ops : List (Op V))
+    (hp : ops.all Op.isPlain = true) (g : Good s) : Good (run cfg s ops) := run_good cfg s ops hp g
+
+/-- **refinement** for load, stated with the invariant only -/
+theorem refinement_load (cfg : Cfg K V) (s s' : State K V) (b : Nat) (vals : List V) (parts : List (List V))
+    (g : Good s) (h : load cfg s b vals parts = .ok s') :
+    Good s' ∧ ∃ t, s.tip b = some t ∧ ∀ snap, snapAt s.commits t = .ok snap →
+      ∃ snap', snapAt s'.commits (s.commits.length + 1) = .ok snap' ∧
+        (snap'.objs.flatMap (pay s'.files)).Perm (snap.objs.flatMap (pay s.files) ++ vals) := by
+  refine ⟨load_good cfg s s' b vals parts g h, ?_⟩
+  obtain ⟨t, ht, hr⟩ := load_refines cfg s s' b vals parts h g.files
+  refine ⟨t, ht, ?_⟩
+  intro snap hs
+  obtain ⟨snap', h1, _, h2⟩ := hr snap hs (Good.snap s g t snap hs).1
+  exact ⟨snap', h1, h2⟩
+
+/-- **refinement** for compaction, stated with the invariant only -/
+theorem refinement_compact (cfg : Cfg K V) (s s' : State K V) (b : Nat) (ids : List Nat) (vec : Bool)
+    (parts : List (List V)) (g : Good s) (h : compact cfg s b ids vec parts = .ok s') :
+    Good s' ∧ ∃ t, s.tip b = some t ∧ ∀ snap, snapAt s.commits t = .ok snap →
+      ∃ snap', snapAt s'.commits (s.commits.length + 1) = .ok snap' ∧
+        (snap'.objs.flatMap (pay s'.files)).Perm (snap.objs.flatMap (pay s.files)) := by
+  refine ⟨compact_good cfg s s' b ids vec parts g h, ?_⟩
+  obtain ⟨t, ht, hr⟩ := compact_refines cfg s s' b ids vec parts h g.files
+  refine ⟨t, ht, ?_⟩
+  intro snap hs
+  have hb := Good.snap s g t snap hs
+  exact hr snap hs hb.1 hb.2 (snapAt_nodup s.commits t snap hs)
+
+/-- non-vacuity: the empty pool satisfies the invariant -/
+example : Good ({} : State K V) := Good.init
+
+omit [DecidableEq V] in
+/-- **object_meta_correct.**  The metadata `data.Writer` records for an object equals that of
+    the values it holds: `count` is their number, and — the values being in pool-key order —
+    every value's key lies in `[min, max]` (both ascending and descending pools).
+    Guard `cfg.mkey = cfg.key` (the key `DerefPath` finds is the key the comparator sorts by):
+    false for pool key `this`, see finding C14:this-key. -/
+theorem object_meta_correct (cfg : Cfg K V) (L : KeyLaws cfg) (hk : cfg.mkey = cfg.key)
+    (id : Nat) (p : List V) (o : Obj K) (h : mkObj cfg id p = some o) (hs : isSorted cfg p = true) :
+    o.id = id ∧ o.count = p.length ∧
+      ∀ v ∈ p, cfg.kle o.min (cfg.key v) = true ∧ cfg.kle (cfg.key v) o.max = true := by
+  refine ⟨mkObj_id cfg id p o h, ?_⟩
+  unfold mkObj at h
+  split at h
+  · rename_i f l hf hl
+    have hb := sorted_bounds cfg L p f l hs hf hl
+    simp only [Option.some.injEq] at h
+    cases hd : cfg.desc
+    · simp only [hd, Bool.false_eq_true, if_false] at h
+      subst h
+      refine ⟨rfl, ?_⟩
+      intro v hv
+      have := hb v hv
+      simp only [kvle, hd, Bool.false_eq_true, if_false] at this
+      simpa [hk] using this
+    · simp only [hd, if_true] at h
+      subst h
+      refine ⟨rfl, ?_⟩
+      intro v hv
+      have := hb v hv
+      simp only [kvle, hd, if_true] at this
+      simpa [hk] using ⟨this.2, this.1⟩
+  · cases h
+
+omit [DecidableEq V] in
+/-- **scan_sorted** (partial: one partition).  If every object of a partition holds its values
+    in pool-key order, the merged scan of the partition is in pool-key order — ascending or
+    descending, null/missing keys largest (that is the key order `kle`).  The order among
+    values of equal key is NOT fixed by this (and is nondeterministic in the code: finding
+    C14:scan:tie-order).  Across partitions the order follows from the slicer's separation of
+    key ranges; that part is tied by correspondence only. -/
+theorem scan_sorted_partial (cfg : Cfg K V) (L : OrderLaws cfg) (ls : List (List V))
+    (h : ∀ l ∈ ls, SortedK cfg l) : SortedK cfg (mergeK cfg ls) := sortedK_mergeK cfg L ls h
+
+omit [DecidableEq V] in
+/-- every object a load writes holds its values in pool-key order -/
+theorem load_object_sorted (cfg : Cfg K V) (L : OrderLaws cfg) (buf : List V) :
+    isSorted cfg (sortVals cfg buf) = true :=
+  isSorted_of_sortedK cfg _ (sortedK_sortVals cfg L buf)
+
+/-! negation witness for `object_meta_correct` without its guard: pool key `this` -/
+private def thisCfg : Cfg (Option Nat) Nat :=
+  { key := some, mkey := fun _ => none,
+    kle := fun a b => match a, b with
+      | _, none => true
+      | none, some _ => false
+      | some x, some y => Nat.ble x y,
+    keq := (· == ·), vle := Nat.ble, desc := false, thresh := 4, size := fun _ => 1 }
+
+/-- **not_object_meta_correct** (pool key `this`): the sort key path `this` is looked up as a
+    field, so the recorded range is `[null, null]` and does not bound the values' keys.
+    Replayed on the real code by the harness (witness:this-key). -/
+theorem not_object_meta_correct :
+    ∃ o, mkObj thisCfg 1 [1, 2] = some o ∧ isSorted thisCfg [1, 2] = true ∧
+      thisCfg.kle o.min (thisCfg.key 1) = false := ⟨_, rfl, rfl, rfl⟩
+
+/-! the former negation witness (one object, `delete [1, 1]`): since fix f09056a37 the model,
+    like the code, de-duplicates, and the branch stays readable -/
 private def dupState : State Nat Nat :=
   { commits := [{ parent := 0, acts := [.add { id := 1, min := 1, max := 1, count := 1 }] }],
     branches := [(0, 1)], files := [(1, [1])], nextObj := 2 }
 
-/-- **not_delete_exact**: `delete(main, [1, 1])` is acknowledged and leaves `main` unreadable
-    (`delete of a non-existent data object`).  Replayed on the real code by the harness
-    (witness:duplicate-id). -/
-theorem not_delete_exact :
-    ∃ s', delete dupState 0 [1, 1] = .ok s' ∧ s'.tip 0 = some 2 ∧
-      snapAt s'.commits 2 = .error .noObject := ⟨_, rfl, rfl, rfl⟩
+/-- `delete(main, [1, 1])` is acknowledged and leaves `main` readable and empty (replayed on the
+    real code by the harness, witness:duplicate-id) -/
+example : ∃ s' snap, delete dupState 0 [1, 1] = .ok s' ∧ s'.tip 0 = some 2 ∧
+    snapAt s'.commits 2 = .ok snap ∧ snap.objs = [] := ⟨_, _, rfl, rfl, rfl, rfl⟩
 
-/-- non-vacuity of `delete_exact_partial` -/
-example : ∃ s', delete dupState 0 [1] = .ok s' ∧ [1].Nodup := ⟨_, rfl, by simp⟩
+/-- non-vacuity of `load_refines`: the freshness hypotheses hold in `dupState` -/
+example : (∀ f ∈ dupState.files, f.1 < dupState.nextObj) ∧
+    ∃ snap, snapAt dupState.commits 1 = .ok snap ∧ ∀ o ∈ snap.objs, o.id < dupState.nextObj := by
+  refine ⟨by decide, _, rfl, by decide⟩
+
+private def natCfg : Cfg Nat Nat :=
+  { key := id, mkey := id, kle := Nat.ble, keq := (· == ·), vle := Nat.ble, desc := false,
+    thresh := 4, size := fun _ => 1 }
+
+/-- non-vacuity of `OrderLaws` / `KeyLaws`: the natural numbers -/
+example : OrderLaws natCfg where
+  refl := by intro a; simp [natCfg]
+  trans := by intro a b c h1 h2; simp [natCfg] at *; omega
+  vtrans := by intro a b c h1 h2; simp [natCfg] at *; omega
+  vtotal := by intro a b; simp [natCfg]; omega
+  refine1 := by intro a b h; simpa [kvle, natCfg] using h
+  refine2 := by
+    intro a b h
+    have h0 : a.ble b = false := h
+    have h' : ¬ a ≤ b := by
+      intro hle
+      rw [Nat.ble_eq_true_of_le hle] at h0; cases h0
+    simp [kvle, natCfg]; omega
 
 end Zed.Props.C14
